@@ -549,7 +549,8 @@ func newUniverse(r *core.R) *universe {
 			}
 			add(e)
 		}
-		hostIPs := map[string][]string{localHost: {"192.168.0.1", "192.168.0.10"}, remote1: {"192.168.0.2", "192.168.1.2"}, remote2: {"192.168.0.3", "172.16.0.3"}}
+		// (the local node's two addresses are in different /24s, so that a re-addressing changes its subnet)
+		hostIPs := map[string][]string{localHost: {"192.168.0.1", "192.168.1.10"}, remote1: {"192.168.0.2", "192.168.1.2"}, remote2: {"192.168.0.3", "172.16.0.3"}}
 		for _, h := range []string{localHost, remote1, remote2} {
 			e := &entity{key: model.ResourceKey{Kind: internalapi.KindNode, Name: h}, name: "node/" + h, kind: "node"}
 			host6 := map[string][]string{localHost: {"dead:beef:1::1", "dead:beef:2::1"}, remote1: {"dead:beef:1::2", "dead:beef:3::2"}, remote2: {"dead:beef:2::3", "dead:beef:1::3"}}
